@@ -294,6 +294,22 @@ var c15Recursive = map[string]any{
 	"RE": C15RE{}, "RF": C15RF{}, "RG": C15RG{}, "RH1": C15RH1{}, "RH2": C15RH2{}, "RH3": &C15RH3{},
 }
 
+// cycles whose only defined type is a slice, map or array type and whose only struct is
+// anonymous (judged by the oracle alone: the model's type descriptions name structs)
+type C15Tree []struct{ Kids C15Tree }
+type C15Dir map[string]struct{ Sub C15Dir }
+type C15Forest []struct {
+	Name string
+	Sub  map[string]struct{ Trees C15Forest }
+}
+
+var c15RecursiveAnon = map[string]any{
+	"AnonTree":   struct{ T C15Tree }{},
+	"AnonDir":    struct{ D C15Dir }{},
+	"AnonForest": struct{ F C15Forest }{},
+	"AnonPtr":    &struct{ T *C15Tree }{},
+}
+
 // ===========================================================================
 // C20: user-defined custom types and their codecs
 // ===========================================================================
